@@ -201,6 +201,7 @@ func cmdCheck(args []string) {
 			lemmas = append(lemmas, l)
 		}
 	}
+	skipLockOnlyFor = *prop
 	res := verifyFuncs(p, keys, runOpts{repo: *repo, workdir: wd, timeout: timeout, all: all, maxPaths: *maxPaths, lemmas: lemmas})
 	// Unmasking: a mid-path obligation is assumed for the rest of its path once it has
 	// been generated; if it fails, what follows it on that path was checked under a false
